@@ -140,6 +140,12 @@ class CppRun(object):
         self.probes[k] = self.probes.get(k, 0) + 1
 
     def v(self, prop, tag, ck, msg, fault=None):
+        if self.plan.get("prop") == "C04" and prop in ("C03", "C05") and "C04" in self.armed and \
+                tag in ("reencode", "rejected-intact", "sizes", "fixed-size", "built-encoding"):
+            # C04 speaks of "the padding it emits": a wrong padding or size in the generated code shows as a control-arm
+            # disagreement of lengths / bytes; under the C04 check it is reported as such
+            prop, ck = "C04", "C04/cpp/emitted-padding-or-size/" + ck.split("/", 1)[1]
+            msg = "generated C++ does not reproduce the canonical image (size / padding emitted by prophyc): " + msg
         if prop in self.armed:
             if runner.known_entry(self.known, prop, ck):
                 # a listed finding: report it (the runner prints KNOWN-FINDING) and keep exploring
